@@ -3,8 +3,8 @@
    The model follows the repaired code (/repo 77c93e1); for the code before the repair the
    split property is false: Proofs.ParserProofs.parse_split_refuted_before_repair. *)
 From Coq Require Import ZArith List.
-From SP Require Import Base.Result Base.Bytes Model.SpacePacket Model.Parser
-  Spec.SpacePacketSpec Spec.ParserSpec Proofs.ParserProofs.
+From SP Require Import Base.Result Base.Bytes Model.SpacePacket Model.Parser Model.ParserFast
+  Spec.SpacePacketSpec Spec.ParserSpec Proofs.ParserProofs Proofs.ParserFast.
 Import ListNotations.
 Open Scope Z_scope.
 
@@ -108,3 +108,10 @@ Example C13_split_example :
   parse_buf [2051] [8; 3; 192] = Ok ([], [[8; 3; 192]]) /\
   parse_buf [2051] ([8; 3; 192] ++ [0; 0; 0; 85; 8]) = Ok ([[8; 3; 192; 0; 0; 0; 85]], [[8]]).
 Proof. split; reflexivity. Qed.
+
+(* the linear-time history formulation the dispatcher uses for large backlogs (operation 902,
+   Model/ParserFast.v) computes exactly the history semantics of Model/Parser.v (operation 900),
+   for every queue and every operation list *)
+Theorem C13_run_ops_fast_eq : forall q ops, run_ops_fast q ops = run_ops q ops.
+Proof. exact run_ops_fast_eq. Qed.
+Print Assumptions C13_run_ops_fast_eq.
